@@ -507,6 +507,16 @@ int __wrap_pthread_join(pthread_t h, void **ret) {
 	vs_join_tid(tid);
 	return 0;
 }
+/* pthread_detach: the thread keeps running under the scheduler and is never joined; the thread ledger shows it as live and
+ * unjoined (C16 judges that), a later join of the handle is a stale join */
+int __real_pthread_detach(pthread_t h);
+int __wrap_pthread_detach(pthread_t h) {
+	if (!active || self_id < 0) return __real_pthread_detach(h);
+	unsigned long v = (unsigned long) h;
+	if (v < VHANDLE_BASE + 1 || v >= VHANDLE_BASE + (unsigned long) nth) { vs_event("detach-unknown-handle 0x%lx", v); return ESRCH; }
+	vs_event("thread-detached t%d", (int) (v - VHANDLE_BASE));
+	return 0;
+}
 int __wrap_usleep(useconds_t us) {
 	if (!active || self_id < 0) return __real_usleep(us);
 	if (hint_wait_input) {
@@ -545,7 +555,6 @@ UNMODELLED(pthread_cond_wait)
 UNMODELLED(pthread_cond_timedwait)
 UNMODELLED(pthread_cond_signal)
 UNMODELLED(pthread_cond_broadcast)
-UNMODELLED(pthread_detach)
 UNMODELLED(pthread_cancel)
 UNMODELLED(pthread_kill)
 UNMODELLED(pthread_spin_lock)
